@@ -56,7 +56,7 @@ class Ctx(object):
             from . import harness
             harness.arm_worker()
             return [fn(i) for i in items]
-        return list(self.pool.imap_unordered(fn, items, chunksize))
+        return _unwrap(self.pool.imap_unordered(_Safe(fn), items, chunksize))
 
     def map_ordered(self, fn, items, chunksize=1):
         items = list(items)
@@ -66,13 +66,39 @@ class Ctx(object):
             from . import harness
             harness.arm_worker()
             return [fn(i) for i in items]
-        return self.pool.map(fn, items, chunksize)
+        return _unwrap(self.pool.map(_Safe(fn), items, chunksize))
 
     def close(self):
         if self._pool is not None:
             self._pool.terminate()
             self._pool.join()
             self._pool = None
+
+
+class _Safe(object):
+    """Picklable wrapper: a worker exception comes back as a value instead of wedging the pool."""
+
+    def __init__(self, fn):
+        self.fn = fn
+
+    def __call__(self, item):
+        try:
+            return ('ok', self.fn(item))
+        except BaseException as e:  # noqa
+            return ('err', '%s: %s\n%s' % (type(e).__name__, e, traceback.format_exc()[-1500:]))
+
+
+class WorkerError(Exception):
+    pass
+
+
+def _unwrap(results):
+    out = []
+    for r in results:
+        if r[0] != 'ok':
+            raise WorkerError(r[1])
+        out.append(r[1])
+    return out
 
 
 def merge(results):
